@@ -738,10 +738,9 @@ class _ChunkWorld(World):
           dr = self.draws[args[0][1]]
           if dr['pool'] == recv[1] and args[0][1] in p['pending']:
             p['pending'].remove(args[0][1])
-            if not dr['replace']:
-              p['size'] -= dr['size']
-            else:
-              raise Undecided('removal of a draw with replacement')
+            # with replacement the draw may repeat members: at most its
+            # size leaves the pool (the clause 'disjoint' reports the draw)
+            p['size'] -= min(dr['size'], p['size'])
             return None
           return None       # removing members of another pool: no effect
       return NotImplemented
@@ -1078,6 +1077,10 @@ class _PairsWorld(World):
       return S('pl')
     if tg(v) == 'pairsarr' and attr == 'T':
       return S('pairsT', v[1])
+    if tg(v) == 'cands' and attr == 'size':
+      return v[4]
+    if tg(v) == 'cands' and attr == 'shape':
+      return (v[4],)
     if v in (S('klabels'), S('kidx')) and attr == 'shape':
       return (self.N,)
     return NotImplemented
@@ -1302,3 +1305,115 @@ def rule_pairs_interp(repo, rep):
       rep.unknown(R, key, site(f, v[2]) if v[2] is not None else site(f),
                   v[1])
   rep.floor('_pairs layout x request combinations interpreted', ncombo, 16)
+
+
+def rule_pos_neg_interp(repo, rep):
+  R = 'R-INTERP:positive-negative-pairs'
+  rep.rule(R, 'positive_negative_pairs interpreted with _pairs summarised '
+           '(it returns k <= n_constraints pairs, every k explored for both '
+           'kinds): _pairs is asked for n_constraints pairs with '
+           'same_label=True, then False, on the one checked random state; '
+           'the result is (a, b, c, d) with a, b the positive and c, d the '
+           'negative indices; under same_length all four are cut to '
+           'min(#positive, #negative), otherwise none is cut')
+  cons = repo.get_class('Constraints')
+  f = cons.methods.get('positive_negative_pairs')
+  if f is None:
+    rep.unknown(R, 'Constraints.positive_negative_pairs', '', 'vanished')
+    return
+  rep.analysed(f)
+  ps = f.params()
+
+  class W(World):
+    def __init__(self, n):
+      self.n, self.calls, self.attrs = n, [], {}
+
+    def attr(self, it, v, attr, node):
+      if v == S('self') and attr in self.attrs:
+        return self.attrs[attr]
+      if tg(v) == 'idx' and attr == 'shape':
+        return (v[2],)
+      if tg(v) == 'idx' and attr == 'size':
+        return v[2]
+      return NotImplemented
+
+    def setattr(self, it, obj, attr, value, node):
+      if obj == S('self'):
+        self.attrs[attr] = value
+        return None
+      return NotImplemented
+
+    def subscript(self, it, base, idx, node):
+      if tg(base) == 'idx' and isinstance(idx, slice) and \
+              idx.start is None and idx.step is None and \
+              isinstance(idx.stop, int) and idx.stop >= 0:
+        return S('idx', base[1], min(base[2], idx.stop))
+      return NotImplemented
+
+    def call(self, it, d, recv, args, kwargs, node):
+      if d == 'len' and args and tg(args[0]) == 'idx':
+        return args[0][2]
+      if d == '._pairs' and recv == S('self'):
+        n = kwargs.get('n_constraints', args[0] if args else None)
+        same = kwargs.get('same_label', args[1] if len(args) > 1 else True)
+        rs = kwargs.get('random_state', None)
+        self.calls.append((n, same, rs))
+        if not isinstance(n, int) or not isinstance(same, bool):
+          raise Undecided('_pairs(%r, same_label=%r)' % (n, same))
+        k = it.choose(n + 1)
+        x, y = ('a', 'b') if same else ('c', 'd')
+        return (S('idx', x, k), S('idx', y, k))
+      if d.rsplit('.', 1)[-1] == 'check_random_state':
+        return S('rng', args[0] if args else None)
+      return NotImplemented
+  bad = unk = None
+  nrun = 0
+  for n in (1, 2):
+    for same_length in (False, True):
+      env0 = {'self': S('self'), 'n_constraints': n,
+              'same_length': same_length, 'random_state': S('seed'),
+              'num_constraints': 'deprecated'}
+      env0 = dict((k, v) for k, v in env0.items() if k in ps)
+      tag = 'n_constraints=%d, same_length=%s' % (n, same_length)
+      try:
+        for w, out, it in runs(repo, f, lambda: W(n), lambda w: dict(env0),
+                               limit=200):
+          nrun += 1
+          if out[0] == 'raise':
+            bad = bad or 'raises %s (%s)' % (out[1][0], tag)
+            continue
+          res = out[1]
+          if not (isinstance(res, tuple) and len(res) == 4 and
+                  all(tg(x) == 'idx' for x in res)):
+            unk = unk or 'returns %r (%s)' % (res, tag)
+            continue
+          if [x[1] for x in res] != ['a', 'b', 'c', 'd']:
+            bad = bad or 'returns the index arrays in the order %s (%s)' % (
+                [x[1] for x in res], tag)
+            continue
+          calls = w.calls
+          if [(c[0], c[1]) for c in calls] != [(n, True), (n, False)]:
+            bad = bad or '_pairs is called as %s (%s)' % (
+                [(c[0], c[1]) for c in calls], tag)
+            continue
+          if any(c[2] != S('rng', S('seed')) for c in calls):
+            bad = bad or '_pairs does not receive the checked random state ' \
+                '(%s)' % tag
+            continue
+          ka = [c for c, _ in it.taken][0]
+          kc = [c for c, _ in it.taken][1]
+          lens = [x[2] for x in res]
+          want = [min(ka, kc)] * 4 if same_length else [ka, ka, kc, kc]
+          if lens != want:
+            bad = bad or 'with %d positive and %d negative pairs found the ' \
+                'four arrays have lengths %s, expected %s (%s)' % (
+                    ka, kc, lens, want, tag)
+      except Undecided as u:
+        unk = unk or '%s (%s)' % (u, tag)
+  key = 'Constraints.positive_negative_pairs'
+  if bad:
+    rep.refuted(R, key, site(f), bad)
+  elif unk:
+    rep.unknown(R, key, site(f), unk)
+  else:
+    rep.derived(R, key, site(f), sample=dict(rule=R, runs=nrun))
